@@ -585,12 +585,12 @@ func TestRTMembership(t *testing.T) {
 	// thousands of events), half for the enumerated small scenarios, half for the large random ones.
 	lines, budget := 0, 400000
 	if e.Tier == "thorough" {
-		budget = 6000000
+		budget = 5000000
 	}
 	for i := 0; i < nSmall && lines < budget/2; i++ {
 		sc := genRTScenario(r, true)
 		dfs := &sim.DFS{}
-		for n := 0; n < maxPer; n++ {
+		for n := 0; n < maxPer && lines < budget/2; n++ {
 			evs := runRT(t, sc, dfs)
 			lines += len(evs)
 			rec.Record(evs, rtReplay{sc, dfs.Taken()}, nontriv(evs))
